@@ -35,23 +35,16 @@ def case(draw):
         ch["shift"] = [30.0 * ci, 0.0, 0.0]
         n = len(ch["seq"])
         if draw(st.integers(0, 2)) == 0:
-            nums, codes, k = [], [], 0
-            for i in range(n):
-                if i > 0 and draw(st.booleans()):
-                    k += 1
-                    nums.append(nums[-1])
-                    codes.append("ABCDE"[k - 1])
-                else:
-                    k = 0
-                    nums.append(ch["start"] + i)
-                    codes.append(" ")
-            ch["nums"], ch["icodes"] = nums, codes
+            strat.add_insertion_codes(draw, ch)
         chains.append(ch)
     return dict(
         part="diff", desc=dict(chains=chains),
         nwat=draw(st.integers(0, 2)),
         big=draw(st.sampled_from([None, None, [-150.0, 1200.0, -250.0], [2000.0, -300.0, 5000.0]])),
         models=draw(st.sampled_from([1, 1, 2, 3])),
+        model_nums=draw(st.sampled_from(["from1", "from1", "from9", "descending", "from0", "gaps"])),
+        cif_order=draw(st.one_of(st.none(), st.permutations(list(range(21))))),
+        cif_omit=[x for x in cifgen.OPTIONAL_ITEMS if draw(st.integers(0, 3)) == 0],
         alts=[draw(st.integers(0, 500)) for _ in range(draw(st.integers(0, 2)))],
         label_chain=draw(st.sampled_from(["same", "AA", "other"])),
         charges=draw(st.booleans()),
@@ -70,12 +63,15 @@ def atoms_of(case):
     alt_idx = {a % len(recs) for a in case["alts"]} if recs else set()
     # never split backbone atoms (keeps residue identity trivial to compare)
     atoms = []
+    nm = case["models"]
+    labels = {"from1": list(range(1, nm + 1)), "from9": list(range(9, 9 + nm)), "descending": list(range(nm + 4, 4, -1)),
+              "from0": list(range(0, nm)), "gaps": [2 + 5 * k for k in range(nm)]}[case.get("model_nums", "from1")]
     for m in range(1, case["models"] + 1):
         serial = 1
         for i, r in enumerate(recs):
             label = {"same": r["chain"], "AA": r["chain"] + "A", "other": "QRS"["AB".index(r["chain"])] if r["chain"] in "AB" else "Z"}[case["label_chain"]]
             base = dict(rec="ATOM", name=r["name"], resn=r["resn"], chain=r["chain"], label_chain=label, seq=r["seq"],
-                        icode=r["icode"], b=10.0, elem=r["name"].lstrip("0123456789")[0], model=m,
+                        icode=r["icode"], b=10.0, elem=r["name"].lstrip("0123456789")[0], model=labels[m - 1],
                         charge="", pdbcharge="")  # fmt: skip
             if case["charges"] and r["name"] in ("NZ", "OD2", "OE2"):
                 base["charge"] = "1" if r["name"] == "NZ" else "-1"
@@ -91,7 +87,7 @@ def atoms_of(case):
         for w in range(case["nwat"]):
             atoms.append(dict(rec="HETATM", serial=serial, name="O", alt=" ", resn="HOH", chain="A", label_chain="W", seq=500 + w,
                               icode=" ", xyz=np.round(np.array([50.0 + 4 * w, 50.0, 50.0]) + off + (m - 1) * 0.2, 3), occ=1.0,
-                              b=20.0, elem="O", charge="", pdbcharge="", model=m))  # fmt: skip
+                              b=20.0, elem="O", charge="", pdbcharge="", model=labels[m - 1]))  # fmt: skip
             serial += 1
     return atoms
 
@@ -143,7 +139,9 @@ def check(case):
     opts = ([] if "--clean" in case["opts"] else [f"--ff={case['ff']}"]) + ["--keep-chain", *case["opts"]]
     has4 = any(len(a["name"]) == 4 for a in atoms)
     feats = dict(alt=bool(case["alts"]), icode=any("icodes" in ch for ch in case["desc"]["chains"]), big=bool(case["big"]),
-                 models=case["models"] > 1, label=case["label_chain"] != "same", charge=any(a["charge"] for a in atoms), name4=has4)  # fmt: skip
+                 models=case["models"] > 1, label=case["label_chain"] != "same", charge=any(a["charge"] for a in atoms), name4=has4,
+                 layout=bool(case.get("cif_order") or case.get("cif_omit")),
+                 modelnums=case["models"] > 1 and case.get("model_nums", "from1") != "from1")  # fmt: skip
     res.nontrivial = any(feats.values())
     res.label(*[k for k, v in feats.items() if v], "shim-1.x" if case["shim"] else "native-2.x", f"ff={case['ff']}",
               " ".join(case["opts"]) or "default")  # fmt: skip
@@ -151,7 +149,7 @@ def check(case):
     install_shim()
     _shim_on["v"] = bool(case["shim"])
     try:
-        r_cif = pipeline.run(cifgen.cif_text(atoms), opts, ext="cif")
+        r_cif = pipeline.run(cifgen.cif_text(atoms, case.get("cif_order"), case.get("cif_omit") or ()), opts, ext="cif")
     finally:
         _shim_on["v"] = False
     if not r_pdb.ok:
